@@ -1224,6 +1224,33 @@ def run_memo_cases(ctx: Ctx, cases, with_model=True):
         ctx.sample({"stream": "memo", "forwards": cases[0]["forwards"], "model": model_source(cases[0]["memo_spec"])})
 
 
+def run_spelling_stream(ctx: Ctx):
+    """the method table of Simultaneous.simulate against the Lean `resolveMethod` (exact), and against the harness's own reading of the
+    documentation (oracle): every documented spelling resolves to its module, the default is first_order, anything else is refused"""
+    import inspect
+    from irispie.simultaneous import _simulate as sm
+    documented = sorted(x for sp in METHOD_SPELLINGS.values() for x in sp if x is not None)
+    probes = documented + ["-", "Stacked", "stack", "stacked-time", "firstorder", "periods", "FIRST_ORDER"]
+    impl = []
+    for sp in probes:
+        try:
+            key = inspect.signature(ir.Simultaneous.simulate).parameters["method"].default if sp == "-" else sp
+            impl.append(sm._SIMULATOR_MODULE[key].METHOD_NAME)
+        except KeyError:
+            impl.append("err:bad")
+    lines = [f"method {sp}" for sp in probes]
+    ctx.compare("spelling", lines, impl, ctx.model("C07", lines))
+    for sp, got in zip(probes, impl):
+        try:
+            want = resolve_method(None if sp == "-" else sp)
+        except KeyError:
+            want = "err:bad"
+        if got != want:
+            ctx.fail("method-spelling-resolution", {"method_spelling": sp}, f"method={sp!r} resolves to {got}, documented: {want}")
+    ctx.evaluations += len(probes)
+    ctx.count("method_spellings_probed", len(probes))
+
+
 # ---------------------------------------------------------------------------------------
 # entry points
 # ---------------------------------------------------------------------------------------
@@ -1263,6 +1290,7 @@ def run(ctx: Ctx):
             cases.append(c)
     run_cases(ctx, cases)
     run_plan_stream(ctx, ctx.n(250, 3000))
+    run_spelling_stream(ctx)
     mrng = ctx.rng.fork("memo")
     run_memo_cases(ctx, [c for c in (gen_memo_case(mrng.fork(i)) for i in range(ctx.n(30, 300))) if c])
 
@@ -1297,6 +1325,8 @@ def replay(ctx: Ctx, payload):
         run_cases(ctx, [case])
     elif isinstance(case, dict) and "memo_spec" in case:
         run_memo_cases(ctx, [case])
+    elif isinstance(case, dict) and "method_spelling" in case or (isinstance(case, str) and case.startswith("method ")):
+        run_spelling_stream(ctx)
     elif isinstance(case, dict) and "line" in case or isinstance(case, str):
         line = case["line"] if isinstance(case, dict) else case
         pre, rep = prefix_lines(line), impl_plan_prefixes(line)
